@@ -145,6 +145,37 @@ def handleC19 (cmd : String) (args : List Sexp) : Option Sexp :=
           if size = 0 || o < -((rout : Int) + 1) || o > (rout : Int) then pure (.list [.atom "err", .atom "out_dim"]) else
           pure (C19D.tdToSexp (vmapTD2 opAdd2 tops j1 j2 (normOutDim o rout) size 1 ta tb))
       | _, _ => pure (.list [.atom "err", .atom "in_dim"])
+  | "c19.vmap_seq2", [bsz, hid, nout, nin, pin, xin, o] => do
+      -- Sequential(Linear(nin, hid), Linear(hid, nout)) with a nested parameter tensordict
+      let B ← asNat? bsz
+      let hid ← asNat? hid
+      let nout ← asNat? nout
+      let nin ← asNat? nin
+      let pin ← asOptInt? pin
+      let xin ← asOptInt? xin
+      let o ← asInt? o
+      let pb : Shape := match pin with | some _ => [B] | none => []
+      let params : TD := ⟨pb, pb.map (fun _ => none),
+        [("0.weight", arangeT 1 (pb ++ [hid, nin])), ("0.bias", arangeT 50 (pb ++ [hid])),
+         ("1.weight", arangeT 2 (pb ++ [nout, hid])), ("1.bias", arangeT 70 (pb ++ [nout]))]⟩
+      let xshape : Shape := match xin with
+        | some d => if d = 0 || d = -2 then [B, nin] else [nin, B]
+        | none => [nin]
+      let xd : Option Nat := xin.map (fun d => if d = 0 || d = -2 then 0 else 1)
+      let xt : T := match xd with
+        | some 1 => ⟨[B, nin], fun c => (arangeT 10 xshape).get [c.getD 1 0, c.getD 0 0]⟩
+        | _ => arangeT 10 xshape
+      let xtd : TD := match xd with
+        | some _ => ⟨[B], [none], [("x", xt)]⟩
+        | none => ⟨[], [], [("x", xt)]⟩
+      let j1 : Option Nat := pin.map (fun _ => 0)
+      let j2 : Option Nat := xd.map (fun _ => 0)
+      if j1.isNone && j2.isNone then pure (.list [.atom "err", .atom "in_dim"]) else
+      if o < -2 || o > 1 then pure (.list [.atom "err", .atom "out_dim"]) else
+      let res := vmapTD2 opSeq2 [] j1 j2 (normOutDim o 1) B 1 params xtd
+      match res.leaves.lookup "y" with
+      | some y => pure (.list [ofNats y.shape, ofInts y.toList])
+      | none => pure (.list [.atom "err", .atom "op"])
   | "c19.vmap_linear", [bsz, nout, nin, pin, xin, o] => do
       -- functional Linear call under vmap: parameters stacked along `pin` of a rank-1 parameter batch [B] (or `none`: shared
       -- parameters), input x vmapped along `xin` (or `none`); weights / bias / x are provenance tensors
